@@ -31,6 +31,10 @@ import (
 	"math/rand"
 	"os"
 	"path/filepath"
+	"runtime"
+	"strings"
+	"sync"
+	"time"
 
 	crypto "github.com/dappledger/AnnChain/gemmill/go-crypto"
 	glog "github.com/dappledger/AnnChain/gemmill/modules/go-log"
@@ -45,8 +49,6 @@ const chainID = "verif-privval"
 
 var rep = mbt.NewReport()
 var perKey = map[string]int{}
-
-type crashNow struct{ site string }
 
 type rec struct {
 	H, R int64
@@ -277,6 +279,7 @@ func (w *world) call(h, r int64, s int8, b string, pl *plan) (sig crypto.Signatu
 	vote, prop, sb := w.signable(h, r, s, b)
 	mainBefore, _ := ioutil.ReadFile(w.file)
 	var newAtRename []byte
+	crashedAt := make(chan string, 1)
 	verifhook.DurableFn = func(site string, key []byte) error {
 		if string(key) != w.file {
 			return nil
@@ -319,8 +322,11 @@ func (w *world) call(h, r int64, s int8, b string, pl *plan) (sig crypto.Signatu
 			}
 			return nil
 		case "crash":
+			// the process dies here: nothing of the code under test runs any more (no deferred unlock, no cleanup).
+			// The goroutine is parked for good and the object abandoned.
 			rep.Count("injected_crash")
-			panic(crashNow{site})
+			crashedAt <- site
+			select {}
 		}
 		return nil
 	}
@@ -331,21 +337,37 @@ func (w *world) call(h, r int64, s int8, b string, pl *plan) (sig crypto.Signatu
 			}
 		}
 	}()
-	pv, stack := mbt.Catch(func() {
-		if vote != nil {
-			err = w.pv.SignVote(chainID, vote)
-			sig = vote.Signature
-		} else {
-			err = w.pv.SignProposal(chainID, prop)
-			sig = prop.Signature
-		}
-	})
+	// the call runs on its own goroutine, through the real locked entry points SignVote / SignProposal
+	type outcome struct {
+		pv    interface{}
+		stack string
+	}
+	finished := make(chan outcome, 1)
+	signer := w.pv
+	go func() {
+		p, st := mbt.Catch(func() {
+			if vote != nil {
+				err = signer.SignVote(chainID, vote)
+				sig = vote.Signature
+			} else {
+				err = signer.SignProposal(chainID, prop)
+				sig = prop.Signature
+			}
+		})
+		finished <- outcome{p, st}
+	}()
+	var pv interface{}
+	var stack string
+	select {
+	case o := <-finished:
+		pv, stack = o.pv, o.stack
+	case <-crashedAt:
+		verifhook.DurableFn = nil
+		w.pv = nil // the process is gone; whatever it computed is lost
+		return nil, nil, true, sb
+	}
 	verifhook.DurableFn = nil
 	if pv != nil {
-		if _, ok := pv.(crashNow); ok {
-			w.pv = nil // the process is gone; whatever it computed is lost
-			return nil, nil, true, sb
-		}
 		w.fail("panic", true, "Sign-panic", fmt.Sprintf("%v\n%s", pv, stack), nil, nil)
 		w.pv = nil
 		return nil, nil, true, sb
@@ -641,6 +663,8 @@ func main() {
 		switch mbt.Str(tr.Cfg["kind"]) {
 		case "model":
 			runModel(w, tr)
+		case "conc":
+			runConc(w, tr)
 		case "random":
 			runRandom(w, tr)
 		default:
@@ -649,4 +673,539 @@ func main() {
 		verifhook.DurableFn = nil
 	}
 	rep.Emit()
+}
+
+// ---------------------------------------------------------------------------------------------------------------
+// Two requesters (behaviours with Issue2 / Enter2): every signing call runs on its own goroutine through the real
+// SignVote / SignProposal; the failpoint is the scheduler gate: a call that reaches a WriteFileAtomic site parks
+// there until the driver tells it what happens (ok / fail / realfail).  A second call issued meanwhile must block on
+// the signer's mutex (PrivVal.tla: wait) and be served only after the first one returned.
+
+type cev struct {
+	id    int
+	kind  string // "site" | "done"
+	site  string
+	sig   crypto.Signature
+	err   error
+	pv    interface{}
+	stack string
+}
+
+type ccall struct {
+	id         int
+	rec        rec
+	sb         []byte
+	cmd        chan string
+	gid        chan int64
+	g          int64
+	parked     string
+	mainBefore []byte
+	newAtRen   []byte
+}
+
+func curGID() int64 {
+	var b [64]byte
+	n := runtime.Stack(b[:], false)
+	var id int64
+	fmt.Sscanf(string(b[:n]), "goroutine %d ", &id)
+	return id
+}
+
+// goroutineState returns the scheduler state of goroutine g as printed by runtime.Stack ("sync.Mutex.Lock", "running", ...).
+func goroutineState(g int64) string {
+	buf := make([]byte, 1<<18)
+	for {
+		n := runtime.Stack(buf, true)
+		if n < len(buf) {
+			buf = buf[:n]
+			break
+		}
+		buf = make([]byte, 2*len(buf))
+	}
+	tag := []byte(fmt.Sprintf("goroutine %d [", g))
+	i := bytes.Index(buf, tag)
+	if i < 0 {
+		return "gone"
+	}
+	rest := buf[i+len(tag):]
+	j := bytes.IndexByte(rest, ']')
+	if j < 0 {
+		return "?"
+	}
+	return string(rest[:j])
+}
+
+type conc struct {
+	w       *world
+	events  chan cev
+	mtx     sync.Mutex
+	byGid   map[int64]*ccall
+	nextID  int
+	running int
+	stash   []cev // events of another call that arrived while waiting for a particular one
+}
+
+func (c *conc) hook(site string, key []byte) error {
+	if string(key) != c.w.file {
+		return nil
+	}
+	c.mtx.Lock()
+	cl := c.byGid[curGID()]
+	c.mtx.Unlock()
+	if cl == nil {
+		return nil
+	}
+	c.events <- cev{id: cl.id, kind: "site", site: site}
+	switch cmd := <-cl.cmd; cmd {
+	case "fail":
+		return errors.New("verif: injected write failure at " + site)
+	case "realfail":
+		switch site {
+		case sites[0]:
+			os.Remove(c.w.file + ".bak")
+			os.Mkdir(c.w.file+".bak", 0700)
+		case sites[1]:
+			os.Remove(c.w.file + ".new")
+			os.Mkdir(c.w.file+".new", 0700)
+		case sites[2]:
+			os.Remove(c.w.file + ".new")
+		}
+	}
+	return nil
+}
+
+func (c *conc) start(x rec) *ccall {
+	w := c.w
+	vote, prop, sb := w.signable(x.H, x.R, x.S, x.B)
+	c.nextID++
+	cl := &ccall{id: c.nextID, rec: x, sb: sb, cmd: make(chan string), gid: make(chan int64, 1)}
+	signer := w.pv
+	c.running++
+	go func() {
+		g := curGID()
+		c.mtx.Lock()
+		c.byGid[g] = cl
+		c.mtx.Unlock()
+		cl.gid <- g
+		var sig crypto.Signature
+		var err error
+		p, st := mbt.Catch(func() {
+			if vote != nil {
+				err = signer.SignVote(chainID, vote)
+				sig = vote.Signature
+			} else {
+				err = signer.SignProposal(chainID, prop)
+				sig = prop.Signature
+			}
+		})
+		c.events <- cev{id: cl.id, kind: "done", sig: sig, err: err, pv: p, stack: st}
+	}()
+	cl.g = <-cl.gid
+	return cl
+}
+
+// nextFor waits for the next event of one particular call; events of the other call are kept for later.  (When the
+// first call returns, the blocked second call may get the mutex and reach its first gate before the first call's
+// goroutine has reported "done": both orders of these two reports are the same real behaviour.)
+func (c *conc) nextFor(id int) (cev, bool) {
+	for i, e := range c.stash {
+		if e.id == id {
+			c.stash = append(c.stash[:i:i], c.stash[i+1:]...)
+			return e, true
+		}
+	}
+	for {
+		e, ok := c.recv()
+		if !ok || e.id == id {
+			return e, ok
+		}
+		c.stash = append(c.stash, e)
+	}
+}
+
+// next waits for the next event of the code under test.
+func (c *conc) next() (cev, bool) {
+	if len(c.stash) > 0 {
+		e := c.stash[0]
+		c.stash = c.stash[1:]
+		return e, true
+	}
+	return c.recv()
+}
+
+func (c *conc) recv() (cev, bool) {
+	select {
+	case e := <-c.events:
+		if e.kind == "done" {
+			c.running--
+		}
+		return e, true
+	case <-time.After(20 * time.Second):
+		return cev{}, false
+	}
+}
+
+// drain lets every call that is still in flight run to its end (all writes succeed).
+func (c *conc) drain(calls ...*ccall) {
+	for _, cl := range calls {
+		if cl != nil && cl.parked != "" {
+			cl.parked = ""
+			cl.cmd <- "ok"
+		}
+	}
+	for c.running > 0 {
+		e, ok := c.next()
+		if !ok {
+			return
+		}
+		if e.kind == "site" {
+			for _, cl := range c.byGid {
+				if cl.id == e.id {
+					cl.cmd <- "ok"
+				}
+			}
+		}
+	}
+	for _, sfx := range []string{".bak", ".new"} {
+		if fi, e := os.Stat(c.w.file + sfx); e == nil && fi.IsDir() {
+			os.Remove(c.w.file + sfx)
+		}
+	}
+}
+
+// siteChecks are the direct expectations about the auxiliary files when a call reaches a site.
+func (c *conc) siteChecks(cl *ccall, site string) {
+	w := c.w
+	rep.Count("site:" + site)
+	switch site {
+	case sites[0]:
+		// the call holds the signer now: this is the file as it is before the call touches anything
+		cl.mainBefore, _ = ioutil.ReadFile(w.file)
+	case sites[1]:
+		if bk, e := ioutil.ReadFile(w.file + ".bak"); e != nil || !bytes.Equal(bk, cl.mainBefore) {
+			w.fail("property", true, "BakIsOldFile", ".bak is not a copy of the file as it was before the call", nil, nil)
+		}
+	case sites[2]:
+		cl.newAtRen, _ = ioutil.ReadFile(w.file + ".new")
+		if x := w.fileRec(w.file + ".new"); x != cl.rec {
+			w.fail("property", true, "NewIsNewRecord", ".new does not hold the record being saved", cl.rec.json(), x.json())
+		}
+		if now, _ := ioutil.ReadFile(w.file); !bytes.Equal(now, cl.mainBefore) {
+			w.fail("property", true, "DiskMonotone", "priv_validator.json changed before the rename", nil, nil)
+		}
+	}
+}
+
+// compareMain compares only the durable record (used while another caller may already be inside the signer).
+func (w *world) compareMain(post map[string]interface{}, where string) bool {
+	got := w.checkDisk().json()
+	rep.Checks++
+	if !mbt.Equal(mbt.Norm(post["main"]), mbt.Canon(got)) {
+		w.fail("mismatch", true, "state:main:"+where, where+": priv_validator.json differs", post["main"], got)
+		return false
+	}
+	return true
+}
+
+func runConc(w *world, tr mbt.Trace) {
+	w.blocks = nil
+	for _, b := range tr.Cfg["Blocks"].([]interface{}) {
+		w.blocks = append(w.blocks, b.(string))
+	}
+	if !w.setup() {
+		return
+	}
+	defer os.RemoveAll(w.dir)
+	c := &conc{w: w, events: make(chan cev, 16), byGid: map[int64]*ccall{}}
+	verifhook.DurableFn = c.hook
+	var active, waiter *ccall
+	type fin struct {
+		sig crypto.Signature
+		err error
+	}
+	var pendingRet *fin // save() returned nil: the model's pc = "ret"
+	defer func() {
+		c.drain(active, waiter)
+		verifhook.DurableFn = nil
+	}()
+	if !w.compare(tr.Init, "after") {
+		return
+	}
+	siteOf := map[string]string{"WriteBak": sites[0], "WriteNew": sites[1], "Rename": sites[2]}
+	cmp := func(post map[string]interface{}, where string) bool {
+		if waiter != nil && where == "after" {
+			// the blocked caller enters the moment the first one returns: only the file is stable to look at
+			return w.compareMain(post, where)
+		}
+		return w.compare(post, where)
+	}
+	// entered handles the first event of a call that has just got the mutex (Request / Enter2)
+	entered := func(cl *ccall, class string, post map[string]interface{}) bool {
+		e, ok := c.nextFor(cl.id)
+		if !ok {
+			w.fail("error", false, "scheduler-timeout", "no event from the entering call", nil, nil)
+			return false
+		}
+		if e.kind == "done" && e.pv != nil {
+			w.fail("panic", true, "Sign-panic", fmt.Sprintf("%v\n%s", e.pv, e.stack), nil, nil)
+			active = nil
+			return false
+		}
+		rep.Checks++
+		switch class {
+		case "sign":
+			if e.kind != "site" || e.site != sites[0] {
+				if e.kind == "done" {
+					active = nil
+					w.fail("mismatch", true, "Request-result:sign", fmt.Sprintf("request %+v refused: %v", cl.rec, e.err), "signature", "error")
+				}
+				return false
+			}
+			cl.parked = e.site
+			c.siteChecks(cl, e.site)
+			return w.compare(post, "at "+e.site)
+		case "regress":
+			if e.kind != "done" {
+				cl.parked = e.site
+				w.fail("mismatch", true, "Request-result:regress", fmt.Sprintf("request %+v must be refused (memory %+v) but it is being saved", cl.rec, w.memRec()), "error", "signing")
+				return false
+			}
+			active = nil
+			if e.err == nil || e.sig != nil {
+				w.fail("mismatch", true, "Request-result:regress", fmt.Sprintf("request %+v must be refused but a signature came back", cl.rec), "error", "signature")
+				if e.err == nil {
+					w.onRelease(cl.rec, cl.sb, e.sig)
+				}
+			}
+			return w.compare(post, "after")
+		default: // same
+			if e.kind != "done" {
+				cl.parked = e.site
+				w.fail("mismatch", true, "Request-result:same", fmt.Sprintf("repeating %+v must return the stored signature but a new one is being saved", cl.rec), nil, nil)
+				return false
+			}
+			active = nil
+			if e.err != nil || e.sig == nil {
+				w.fail("mismatch", true, "Request-result:same", fmt.Sprintf("repeating the request %+v must return the stored signature: %v", cl.rec, e.err), "signature", "error")
+			} else {
+				w.onRelease(cl.rec, cl.sb, e.sig)
+			}
+			return w.compare(post, "after")
+		}
+	}
+	for si := 0; si < len(tr.Steps); si++ {
+		st := tr.Steps[si]
+		w.si, w.act = si, fmt.Sprintf("%s%v", st.A, st.Args)
+		rep.Steps++
+		switch st.A {
+		case "Request":
+			if active != nil || waiter != nil || pendingRet != nil {
+				w.fail("error", false, "request-while-busy", "", nil, nil)
+				return
+			}
+			x := rec{int64(mbt.Int(st.Args[0])), int64(mbt.Int(st.Args[1])), int8(mbt.Int(st.Args[2])), mbt.Str(st.Args[3])}
+			active = c.start(x)
+			if !entered(active, mbt.Str(st.Args[4]), st.Post) {
+				return
+			}
+		case "WriteBak", "WriteNew", "Rename":
+			f := mbt.Str(st.Args[0])
+			if active == nil || active.parked != siteOf[st.A] {
+				w.fail("error", false, "substep-without-call", "behaviour and real call are at different sub-steps", siteOf[st.A], nil)
+				return
+			}
+			if f == "crash" {
+				w.fail("error", false, "crash-in-concurrent-behaviour", "not supported by this runner", nil, nil)
+				return
+			}
+			if f != "ok" {
+				rep.Count("injected_" + f)
+			}
+			cl := active
+			cl.parked = ""
+			cl.cmd <- f
+			e, ok := c.nextFor(cl.id)
+			if !ok {
+				w.fail("error", false, "scheduler-timeout", "the call did not move on", nil, nil)
+				return
+			}
+			if e.kind == "site" && len(c.stash) > 0 {
+				cl.parked = e.site
+				w.fail("property", true, "Serialized", fmt.Sprintf("a second signing call moved while the first one (%+v) is still inside its signer-file write (%s)", cl.rec, e.site), nil, nil)
+				return
+			}
+			if e.kind == "done" && e.pv != nil {
+				active = nil
+				w.fail("panic", true, "Sign-panic", fmt.Sprintf("%v\n%s", e.pv, e.stack), nil, nil)
+				return
+			}
+			rep.Checks++
+			switch {
+			case f == "ok" && st.A != "Rename":
+				if e.kind != "site" {
+					active = nil
+					w.fail("mismatch", true, "Request-result:sign", fmt.Sprintf("the call ended early: %v", e.err), nil, nil)
+					return
+				}
+				cl.parked = e.site
+				c.siteChecks(cl, e.site)
+				if !w.compare(st.Post, "at "+e.site) {
+					return
+				}
+			case f == "ok":
+				if e.kind != "done" || e.err != nil || e.sig == nil {
+					if e.kind == "site" {
+						cl.parked = e.site
+					} else {
+						active = nil
+					}
+					w.fail("mismatch", true, "Request-result:sign", fmt.Sprintf("request %+v refused after a successful save: %v", cl.rec, e.err), "signature", "error")
+					return
+				}
+				if now, _ := ioutil.ReadFile(w.file); !bytes.Equal(now, cl.newAtRen) {
+					w.fail("property", true, "NewIsNewRecord", "after the rename priv_validator.json is not what .new held", nil, nil)
+				}
+				pendingRet = &fin{e.sig, e.err}
+				if !cmp(st.Post, "after") {
+					return
+				}
+			default: // fail / realfail: the request is refused, nothing released
+				if e.kind != "done" {
+					cl.parked = e.site
+					w.fail("mismatch", true, "Request-result:failed-save", "the signer file could not be written, yet the call goes on", nil, nil)
+					return
+				}
+				active = nil
+				if e.err == nil || e.sig != nil {
+					w.fail("mismatch", true, "Request-result:failed-save", fmt.Sprintf("the signer file could not be written, yet a signature for %+v came back", cl.rec), "error", "signature")
+					if e.err == nil {
+						w.onRelease(cl.rec, cl.sb, e.sig)
+					}
+				}
+				for _, sfx := range []string{".bak", ".new"} {
+					if fi, e := os.Stat(w.file + sfx); e == nil && fi.IsDir() {
+						os.Remove(w.file + sfx)
+					}
+				}
+				if !cmp(st.Post, "after") {
+					return
+				}
+			}
+		case "Return":
+			if pendingRet == nil || active == nil || mbt.Str(st.Args[0]) != "ok" {
+				w.fail("error", false, "return-without-call", "", nil, nil)
+				return
+			}
+			w.onRelease(active.rec, active.sb, pendingRet.sig)
+			active, pendingRet = nil, nil
+			if !cmp(st.Post, "after") {
+				return
+			}
+		case "Issue2":
+			if active == nil || active.parked == "" || waiter != nil {
+				w.fail("error", false, "issue2-without-parked-call", "", nil, nil)
+				return
+			}
+			x := rec{int64(mbt.Int(st.Args[0])), int64(mbt.Int(st.Args[1])), int8(mbt.Int(st.Args[2])), mbt.Str(st.Args[3])}
+			waiter = c.start(x)
+			rep.Count("concurrent_requests")
+			// it must block on the signer's mutex: either we see it blocked there, or it shows up at the gate / returns
+			moved := false
+			var ev cev
+			deadline := time.Now().Add(10 * time.Second)
+			for !moved {
+				select {
+				case ev = <-c.events:
+					if ev.kind == "done" {
+						c.running--
+					}
+					moved = true
+					continue
+				default:
+				}
+				stt := goroutineState(waiter.g)
+				if strings.HasPrefix(stt, "sync.Mutex.Lock") || strings.HasPrefix(stt, "semacquire") {
+					break
+				}
+				if time.Now().After(deadline) {
+					w.fail("error", false, "scheduler-timeout", "cannot tell whether the second call is blocked: "+stt, nil, nil)
+					return
+				}
+				time.Sleep(50 * time.Microsecond)
+			}
+			if !moved {
+				rep.Count("second_caller_blocked")
+				continue
+			}
+			// The second call ran although the first one is between its check and its durable write: check, watermark
+			// update and write are not atomic.  Show the consequence on the real signer with the driver's own schedule:
+			// let the second call finish, make the first one's write fail, then ask for a conflicting signature.
+			w.fail("property", true, "Serialized", fmt.Sprintf("request %+v was served while request %+v was inside its signer-file write (%s)", waiter.rec, active.rec, active.parked), nil, nil)
+			second := waiter
+			for ev.kind != "done" {
+				if ev.id == second.id {
+					second.cmd <- "ok"
+				}
+				var ok bool
+				if ev, ok = c.next(); !ok {
+					return
+				}
+			}
+			if ev.err == nil && ev.sig != nil {
+				w.onRelease(second.rec, second.sb, ev.sig) // incl. DurableBeforeRelease for an answer from LastSignature
+			}
+			waiter = nil
+			first := active
+			first.parked = ""
+			first.cmd <- "fail"
+			for {
+				e2, ok := c.next()
+				if !ok {
+					return
+				}
+				if e2.kind == "done" {
+					if e2.err == nil && e2.sig != nil {
+						w.onRelease(first.rec, first.sb, e2.sig)
+					}
+					break
+				}
+				first.cmd <- "ok"
+			}
+			active = nil
+			other := "A"
+			if second.rec.B == "A" {
+				other = "B"
+			}
+			probe := c.start(rec{second.rec.H, second.rec.R, second.rec.S, other})
+			for {
+				e3, ok := c.next()
+				if !ok {
+					return
+				}
+				if e3.kind == "done" {
+					if e3.err == nil && e3.sig != nil {
+						w.onRelease(probe.rec, probe.sb, e3.sig) // NoConflictingRelease if the second call's signature is out
+					}
+					break
+				}
+				probe.cmd <- "ok"
+			}
+			if m, d := w.memRec(), w.fileRec(w.file); m != d {
+				w.fail("property", true, "MemIsDisk", "between calls the object's record differs from priv_validator.json", d.json(), m.json())
+			}
+			return
+		case "Enter2":
+			if waiter == nil || active != nil {
+				w.fail("error", false, "enter2-without-waiter", "", nil, nil)
+				return
+			}
+			active, waiter = waiter, nil
+			if !entered(active, mbt.Str(st.Args[0]), st.Post) {
+				return
+			}
+		default:
+			w.fail("error", false, "unexpected-action", st.A+" in a concurrent behaviour", nil, nil)
+			return
+		}
+	}
 }
